@@ -157,6 +157,17 @@ func (e *Engine) newEntryState(fn *ssa.Function) *State {
 		v := e.freshValue(s, p.Type(), "in."+p.Name())
 		// tree-typed parameters get their grammar-derived dynamic type
 		v = e.treeParam(s, p.Type(), v, fn)
+		// a reference passed in denotes an object that existed at entry
+		switch p.Type().Underlying().(type) {
+		case *types.Pointer, *types.Map, *types.Slice:
+			if len(v) > 0 && v[0].S == SInt {
+				s.assume(Le(v[0], Sym("ALLOC0", SInt)))
+			}
+		case *types.Interface:
+			if len(v) > 1 && v[1].S == SInt {
+				s.assume(Le(v[1], Sym("ALLOC0", SInt)))
+			}
+		}
 		fr.regs[p] = v
 		fr.params = append(fr.params, v)
 	}
